@@ -5,15 +5,16 @@ from harness.core import pool, tb
 from harness.gen import systems
 from harness.props import _shared
 
-PROOF_MODULE = ["OdeVerif.Proofs.C08", "OdeVerif.Proofs.RefinePropagator", "OdeVerif.Proofs.RefineParams", "OdeVerif.Proofs.RefineGlue", "OdeVerif.Proofs.RefineShapesPass"]
-GENERATED = ["PyPropagator", "PyParams", "PyGlue", "PyInitialValues", "PyShapesPass"]
+PROOF_MODULE = ["OdeVerif.Proofs.C08", "OdeVerif.Proofs.RefinePropagator", "OdeVerif.Proofs.RefineParams", "OdeVerif.Proofs.RefineGlue", "OdeVerif.Proofs.RefineShapesPass", "OdeVerif.Proofs.RefineDictAssembly"]
+GENERATED = ["PyPropagator", "PyParams", "PyGlue", "PyInitialValues", "PyShapesPass", "PyDictAssembly"]
 THEOREMS = ["OdeVerif.C08.rowSymbols_closed", "OdeVerif.C08.used_propagators_defined", "OdeVerif.C08.diag_propagator_defined",
             "OdeVerif.C08.one_row_per_variable", "OdeVerif.C08.stateName_injective", "OdeVerif.C08.initialValue_found",
             "OdeVerif.C08.listed_iff_referenced", "OdeVerif.C08.prefix_filter_misses_initial_values",
             "OdeVerif.Refine.propagatorSolver_error_iff", "OdeVerif.Refine.propagatorSolver_ok", "OdeVerif.Refine.propagatorSolver_ok_of_model",
             "OdeVerif.Refine.parameterFilter_refines", "OdeVerif.Refine.parameterFilter_none",
             "OdeVerif.Refine.shapeGetInitialValue_refines", "OdeVerif.Refine.shapeGetStateVariables_refines", "OdeVerif.Refine.systemGetInitialValue_refines", "OdeVerif.Refine.initialValueCopy_refines", "OdeVerif.Refine.ivOut_keys", "OdeVerif.Refine.ivOut_value", "OdeVerif.Refine.ivOut_keys_nodup",
-            "OdeVerif.Refine.fromJsonToShapes_keys", "OdeVerif.Refine.fromJsonToShapes_time_not_param", "OdeVerif.Refine.fromJsonToShapes_values"]
+            "OdeVerif.Refine.fromJsonToShapes_keys", "OdeVerif.Refine.fromJsonToShapes_time_not_param", "OdeVerif.Refine.fromJsonToShapes_values",
+            "OdeVerif.Refine.generateNumericSolver_spec", "OdeVerif.Refine.propagatorSolverDict_spec", "OdeVerif.Refine.solverDict_iv_keys"]
 LEVEL = "proof"
 FUNCS = [("I_f", "exp(-t/tau_s)"), ("I_f", "(e/tau)*t*exp(-t/tau)")]
 
